@@ -19,13 +19,14 @@ Rec == ndJsonDeserialize(IOEnv.TRACE)
 KnownS3 == IOEnv.KNOWN_S3 = "1"
 K == 4
 
-VARIABLES l, run, clean, nfr, got, viol, known
-tvars == <<l, run, clean, nfr, got, viol, known>>
+VARIABLES l, run, clean, nfr, got, tx, viol, known
+tvars == <<l, run, clean, nfr, got, tx, viol, known>>
 
 ToSet(s) == {s[i] : i \in DOMAIN s}
 LMin(S) == CHOOSE x \in S : \A y \in S : x <= y
 
-TraceInit == l = 1 /\ run = 0 /\ clean = 0 /\ nfr = <<>> /\ got = <<>> /\ viol = {} /\ known = {}
+\* tx: <<sn, fragment>> -> how often the writer put that fragment on the wire
+TraceInit == l = 1 /\ run = 0 /\ clean = 0 /\ nfr = <<>> /\ got = <<>> /\ tx = <<>> /\ viol = {} /\ known = {}
 
 Put(f, k, v) == [x \in DOMAIN f \cup {k} |-> IF x = k THEN v ELSE f[x]]
 
@@ -39,8 +40,13 @@ Round(e) ==
                /\ LMin(missing) \in DOMAIN nfr /\ nfr[LMin(missing)] > 0      \* lowest missing is fragmented
                /\ "rw:NACKFRAG" \in traffic                                    \* the reader keeps asking for fragments
                /\ e.unsent = <<>>                                              \* the writer has nothing scheduled
-               \* and a fragment of it really never reached the reader (otherwise it is not this finding)
+               \* and a fragment of it really never reached the reader (otherwise it is not this finding) ...
                /\ ~((1..nfr[LMin(missing)]) \subseteq (IF LMin(missing) \in DOMAIN got THEN got[LMin(missing)] ELSE {}))
+               \* ... although the writer did repeat every such fragment at least once: the finding is that the repair is
+               \* not repeated, a writer that never repairs at all is something else
+               /\ \A f \in 1..nfr[LMin(missing)] :
+                     f \notin (IF LMin(missing) \in DOMAIN got THEN got[LMin(missing)] ELSE {})
+                       => (<<LMin(missing), f>> \in DOMAIN tx /\ tx[<<LMin(missing), f>>] >= 2)
       stuck == c2 >= K /\ ~converged
       vConv == IF stuck /\ ~(KnownS3 /\ s3sig) THEN {"C02_not_converged_after_K_fault_free_rounds"} ELSE {}
       kConv == IF stuck /\ KnownS3 /\ s3sig THEN {"C02_S3_nackfrag_not_acted_upon"} ELSE {}
@@ -60,18 +66,20 @@ Round(e) ==
   IN /\ clean' = c2
      /\ viol' = viol \cup vConv \cup vQuiet \cup vBytes \cup vTwice \cup vInc \cup vAsm
      /\ known' = known \cup kConv
-     /\ UNCHANGED <<run, nfr, got>>
+     /\ UNCHANGED <<run, nfr, got, tx>>
 
 Step ==
   /\ l <= Len(Rec)
   /\ l' = l + 1
   /\ LET e == Rec[l] IN
-     CASE e.ev = "Reset" -> run' = e.run /\ clean' = 0 /\ nfr' = <<>> /\ got' = <<>> /\ viol' = {} /\ known' = {}
-       [] e.ev = "Write" -> nfr' = Put(nfr, e.sn, e.nfrags) /\ clean' = 0 /\ UNCHANGED <<run, got, viol, known>>
-       [] e.ev = "Clean" -> clean' = 0 /\ UNCHANGED <<run, nfr, got, viol, known>>
+     CASE e.ev = "Reset" -> run' = e.run /\ clean' = 0 /\ nfr' = <<>> /\ got' = <<>> /\ tx' = <<>> /\ viol' = {} /\ known' = {}
+       [] e.ev = "Write" -> nfr' = Put(nfr, e.sn, e.nfrags) /\ clean' = 0 /\ UNCHANGED <<run, got, tx, viol, known>>
+       [] e.ev = "Clean" -> clean' = 0 /\ UNCHANGED <<run, nfr, got, tx, viol, known>>
        [] e.ev = "Dgram" ->
             /\ got' = IF e.k = "FRAG" /\ e.fate # "drop"
                         THEN Put(got, e.sn, (IF e.sn \in DOMAIN got THEN got[e.sn] ELSE {}) \cup {e.f}) ELSE got
+            /\ tx' = IF e.k = "FRAG" /\ e.dir = "wr"
+                       THEN Put(tx, <<e.sn, e.f>>, (IF <<e.sn, e.f>> \in DOMAIN tx THEN tx[<<e.sn, e.f>>] ELSE 0) + 1) ELSE tx
             \* geometry of every DATAFRAG the real writer emitted (Fragmentation.tla)
             /\ viol' = viol \cup
                  (IF e.k = "FRAG" /\ e.dir = "wr" /\
